@@ -106,9 +106,33 @@ RUNS += [
     {"sort": [{"key": "ftime", "desc": False}, {"key": "id", "desc": False}], "limit": 3, "skip": 0, "group": ["chost"]},
     {"sort": [{"key": "id", "desc": False}], "limit": 2, "skip": 1, "group": ["sport", "shost"]},
 ]
+# ... by the value a data filter captured (only for the queries that capture one, see CAPTURE_CASES)
+RUNS += [
+    {"sort": [{"key": "id", "desc": False}], "limit": 100, "skip": 0, "group": ["v"]},
+    {"sort": [{"key": "id", "desc": True}], "limit": 0, "skip": 0, "group": ["v"]},
+    {"sort": [{"key": "ftime", "desc": True}, {"key": "id", "desc": False}], "limit": 2, "skip": 0, "group": ["v"]},
+    {"sort": [{"key": "id", "desc": False}], "limit": 1, "skip": 1, "group": ["v"]},
+    {"sort": [], "limit": 3, "skip": 0, "group": ["v"]},
+]
 for _r in RUNS:
     _r.setdefault("ids", [])
     _r.setdefault("group", [])
+
+
+def _atom(k, **kw):
+    a = {"k": k, "n": 0, "lo": 0, "hi": 0, "s": [], "p": 0, "h": 0, "bits": 32, "name": "", "tok": "", "conv": ""}
+    a.update(kw)
+    return {"op": "atom", "a": a}
+
+
+# queries with a capturing data filter (searched grouped by the captured value; C02 only: the normal form keeps the
+# expression as text, which Query.tla's token semantics of C03 does not read)
+CAPTURE_CASES = [
+    _atom("capc"),
+    {"op": "and", "x": _atom("capc"), "y": _atom("sport", n=80)},
+    {"op": "and", "x": _atom("capc"), "y": {"op": "not", "x": _atom("tag", name="tag/x")}},
+    {"op": "and", "x": _atom("proto", p=1), "y": _atom("capc")},
+]
 
 
 def shape(ast):
@@ -147,7 +171,7 @@ def run(ctx):
     other = [a for a in exh if id(a) not in d2ids]
     if ctx.quick():
         depth2 = rng.sample(depth2, min(len(depth2), 900))
-    cases = other + depth2 + rnd
+    cases = other + depth2 + rnd + (CAPTURE_CASES if ctx.pid == "C02" else [])
     pop = make_population(rng)
     layouts = make_layouts(rng, pop)
     inp = os.path.join(ctx.scratch, "query_in.json")
